@@ -181,7 +181,7 @@ def minimise(mod, scenario, tape, violation, budget_s=60):
 
 
 def write_replay(mod, seed, scenario, tape, violation, digest=None):
-    d = os.path.join(VERIF, "replays")
+    d = os.environ.get("VERIF_REPLAY_DIR") or os.path.join(VERIF, "replays")
     os.makedirs(d, exist_ok=True)
     h = hashlib.sha256(json.dumps([scenario, tape], sort_keys=True).encode()).hexdigest()[:10]
     path = os.path.join(d, "%s-%s-%s.json" % (mod.PROPERTY, seed, h))
@@ -356,8 +356,9 @@ def run_check(modname, tier="quick"):
         "wall_s": round(wall, 2),
         "violations": len(new_paths),
     }
-    os.makedirs(os.path.join(VERIF, "evidence"), exist_ok=True)
-    with open(os.path.join(VERIF, "evidence", "%s.json" % mod.PROPERTY), "w") as f:
+    evdir = os.environ.get("VERIF_EVIDENCE_DIR") or os.path.join(VERIF, "evidence")
+    os.makedirs(evdir, exist_ok=True)
+    with open(os.path.join(evdir, "%s.json" % mod.PROPERTY), "w") as f:
         json.dump(ev, f, indent=1, sort_keys=True)
     print("%s: %d runs, %d distinct non-trivial, %.1f s, %d new violation(s), %d known"
           % (mod.PROPERTY, agg["n"], len(agg["shapes"]), wall, len(new_paths), len(known_hits)))
